@@ -77,13 +77,7 @@ def message_and_type_reach_exception(ctx):
     _flow(ctx, 'manager.TransferManager.shutdown', 'TransferManager._shutdown', [('cancel', 'cancel'), ('cancel_msg', 'cancel_msg')])
     _flow(ctx, 'manager.TransferManager._shutdown', 'TransferCoordinatorController.cancel', [('msg', 'cancel_msg'), ('exc_type', 'exc_type')])
     _flow(ctx, 'manager.TransferCoordinatorController.cancel', 'TransferCoordinator.cancel', [('msg', 'msg'), ('exc_type', 'exc_type')])
-    # __exit__: the three values handed to _shutdown are locals; find them through the call
-    ex = ctx.func('manager.TransferManager.__exit__')
-    sd = [c for c, r in q.calls_in(ctx, ex) if r.kind == 'package' and any(t.qualname == 'manager.TransferManager._shutdown' for t in r.targets)]
-    ctx.ob(ex, '__exit__ calls self._shutdown(cancel, cancel_msg, cancel_exc_type)', len(sd) == 1, '__exit__ must shut down (and cancel on error)')
-    b = (q.bind_args(ctx, sd[0], ex, ctx.func('manager.TransferManager._shutdown')) or {}) if sd else {}
-    ncancel, nmsg, ntype = [b.get(k).id if isinstance(b.get(k), ast.Name) else None for k in ('cancel', 'cancel_msg', 'exc_type')]
-    ctx.ob(ex, 'all three values are passed to their own parameters', None not in (ncancel, nmsg, ntype) and len({ncancel, nmsg, ntype}) == 3, f'{ncancel}, {nmsg}, {ntype}')
+    _exit_values(ctx)
     # _shutdown: the cancel call is control dependent on `cancel` only
     f = ctx.func('manager.TransferManager._shutdown')
     for c, r in q.calls_in(ctx, f):
@@ -107,22 +101,66 @@ def message_and_type_reach_exception(ctx):
                 and isinstance(v.args[0], ast.Name) and v.args[0].id == 'msg':
             ok = True
     ctx.ob(f, stores[0] if stores else 'self._exception = exc_type(msg)', ok, 'cancel must store exc_type(msg) as the exception')
-    # __exit__: type selection
-    f = ctx.func('manager.TransferManager.__exit__')
-    defs = q.local_defs(f, ntype or 'cancel_exc_type')
-    vals = {}
-    for st, v in defs:
-        vals.setdefault(norm(v), []).append(q.guard_texts(st))
-    ok_default = any(g == [] for g in vals.get('FatalError', []))
-    ok_ki = any(any('isinstance(exc_value, KeyboardInterrupt)' == t and pol for t, pol in g) for g in vals.get('CancelledError', []))
-    ctx.ob(f, 'cancel_exc_type selection', ok_default and ok_ki and set(vals) == {'FatalError', 'CancelledError'},
-           f'exception type must default to FatalError and be CancelledError exactly under isinstance(exc_value, KeyboardInterrupt); found {sorted(vals)}')
-    defs = q.local_defs(f, ncancel or 'cancel')
-    ok = any(norm(v) == 'True' and g == [('exc_type', True)] for st, v in defs for g in [q.guard_texts(st)]) and any(norm(v) == 'False' and not q.guards(st) for st, v in defs)
-    ctx.ob(f, 'cancel = True under exc_type', ok, 'leaving the with-block through an exception must request cancellation')
-    defs = q.local_defs(f, nmsg or 'cancel_msg')
-    ok = any('exc_value' in norm(v) for st, v in defs if isinstance(v, ast.AST))
-    ctx.ob(f, 'cancel_msg derives from exc_value', ok, 'the cancellation message must derive from the exception value')
+
+
+def _exit_values(ctx):
+    """__exit__: on every path exactly one _shutdown call; the (cancel, message, type) values
+    that reach it, per path: cancel is False exactly when no exception left the block; on
+    cancelling paths the message derives from exc_value and the type is CancelledError exactly
+    under isinstance(exc_value, KeyboardInterrupt), FatalError otherwise."""
+    ex = ctx.func('manager.TransferManager.__exit__')
+    sdf = ctx.func('manager.TransferManager._shutdown')
+    sd = [c for c, r in q.calls_in(ctx, ex) if r.kind == 'package' and any(t.qualname == sdf.qualname for t in r.targets)]
+    g = ctx.cfg(ex)
+    sn = [n for c in sd for n in g.nodes_of(c)]
+    once = bool(sn) and g.must_pass([g.entry], sn, [g.exit], g.NORMAL) and not (g.reach(sn, labels=g.NORMAL) & set(sn))
+    ctx.ob(ex, '__exit__ calls self._shutdown(cancel, cancel_msg, cancel_exc_type) exactly once on every normal path', once, '__exit__ must shut down (and cancel on error)')
+    etype, evalue = (ex.params + ['exc_type', 'exc_value'])[1:3] if len(ex.params) >= 3 else ('exc_type', 'exc_value')
+    ki = f'isinstance({evalue}, KeyboardInterrupt)'
+    ok_bind = ok_cancel = ok_type = ok_msg = bool(sd)
+    why = []
+    for c in sd:
+        b = q.bind_args(ctx, c, ex, sdf) or {}
+        exprs = [b.get(k) for k in ('cancel', 'cancel_msg', 'exc_type')]
+        if any(e is None or isinstance(e, list) for e in exprs):
+            ok_bind = False
+            continue
+        pv = q.path_values(g, ex, g.nodes_of(c), exprs)
+        ctx.need(pv is not None, 'too many paths in __exit__')
+        for conds, (vc, vm, vt), _ in pv:
+            cancelling = None
+            if isinstance(vc, ast.Constant) and vc.value in (True, False):
+                cancelling = vc.value
+                if not q.guards_imply(conds, etype if cancelling else f'not {etype}'):
+                    ok_cancel = False
+                    why.append(f'cancel={vc.value} on a path where {etype} may be {"false" if cancelling else "true"}')
+            elif isinstance(vc, ast.AST) and q.equivalent(vc, etype) or (isinstance(vc, ast.AST) and norm(vc) in (f'bool({etype})', f'{etype} is not None')):
+                cancelling = None  # cancel follows exc_type itself
+            else:
+                ok_cancel = False
+                why.append(f'cancel={norm(vc) if isinstance(vc, ast.AST) else vc}')
+            if cancelling is False or (cancelling is None and q.guards_imply(conds, f'not {etype}')):
+                continue
+            # a (possibly) cancelling path
+            if not (isinstance(vm, ast.AST) and evalue in q.names_in(vm)):
+                ok_msg = False
+            if isinstance(vt, ast.IfExp):
+                good = (q.equivalent(vt.test, ki) and norm(vt.body) == 'CancelledError' and norm(vt.orelse) == 'FatalError') or \
+                       (q.equivalent(vt.test, f'not {ki}') and norm(vt.body) == 'FatalError' and norm(vt.orelse) == 'CancelledError')
+            elif isinstance(vt, ast.AST) and norm(vt) == 'CancelledError':
+                good = q.guards_imply(conds, ki)
+            elif isinstance(vt, ast.AST) and norm(vt) == 'FatalError':
+                good = q.guards_imply(conds, f'not {ki}')
+            else:
+                good = False
+            if not good:
+                ok_type = False
+                why.append(f'type={norm(vt) if isinstance(vt, ast.AST) else vt} under {[(norm(e), p) for e, p in conds]}')
+    ctx.ob(ex, 'all three values are passed to their own parameters', ok_bind, 'cancel / cancel_msg / exc_type of _shutdown are not all bound')
+    ctx.ob(ex, 'cancel = True under exc_type', ok_cancel, 'leaving the with-block through an exception must request cancellation (and only then): ' + '; '.join(why[:2]))
+    ctx.ob(ex, 'cancel_exc_type selection', ok_type,
+           'exception type must be CancelledError exactly under isinstance(exc_value, KeyboardInterrupt) and FatalError otherwise: ' + '; '.join(why[:2]))
+    ctx.ob(ex, 'cancel_msg derives from exc_value', ok_msg, 'the cancellation message must derive from the exception value')
 
 
 @rule('C07.c', ['C07'], floor=3)
